@@ -338,7 +338,7 @@ def expect_parallel(voices, bpm):
                 instants.add(t)
                 tm.add(t, e["bpm"])
             t += e["len"]
-    length = voice_boundaries(voices[0])[-1]
+    length = max(voice_boundaries(v)[-1] for v in voices)
     per = collections.defaultdict(list)
     for v in voices:
         t = Fraction(0)
@@ -637,10 +637,17 @@ class Exec(object):
         for bars in voices_per_bar:
             if not bars:
                 return False
-            L = bars[0].length
+            full = [b for b in bars if b.entries]
+            if not full:
+                return False
+            L = full[0].length
             for b in bars:
-                if not b.is_exactly_full() or b.length != L or not self.world.bar_consistent(b):
+                if not self.world.bar_consistent(b):
                     return False
+                if b.entries and (not b.is_exactly_full() or b.length != L):
+                    return False
+            if len(full) != len(bars):
+                self.probes["empty_bar_in_parallel_playback"] += 1  # that voice is simply silent for the bar
         nvoices = len(voices_per_bar[0])
         chans = [set() for _ in range(nvoices)]
         for bars in voices_per_bar:
@@ -796,7 +803,7 @@ class Exec(object):
         out = []
         for t, ch in zip(tracks, chs):
             prog = 1
-            if t.instr[0] == "midi":
+            if t.instr[0] == "midi" and getattr(t, "pending_instr", None) is None:
                 if t.instr[1] in MidiInstrument.names:
                     prog = MidiInstrument.names.index(t.instr[1])
                 else:
@@ -1074,6 +1081,12 @@ def generate(rng, prop, tier):
         for _ in range(rng.choice([1, 2, 2, 3, 4])):
             b = one_bar(full=True)
             ops.append({"op": "tadd", "track": t, "bar": b})
+            if rng.random() < 0.06:
+                ops.append({"op": "tadd", "track": t, "bar": b, "again": True})
+            if rng.random() < 0.06:
+                ops.append({"op": "setnote", "bar": b, "entry": rng.randrange(8), "pos": rng.randrange(5), "note": world.gen_note(rng)})
+            if rng.random() < 0.05:
+                ops.append({"op": "unison", "bar": b, "entry": rng.randrange(8), "ch": rng.randrange(16)})
         churn_between()
         churn_inside()
         ops.append({"op": "play_track", "track": t, "ch": rng.randrange(16), "bpm": bpm(), "dflt": rng.random() < 0.12})
@@ -1088,7 +1101,11 @@ def generate(rng, prop, tier):
         for bi in range(nbars):
             fills = _parallel_fills(rng, meter, nvoices, rhythm)
             key = rng.choice(world.ALL_KEYS)
+            empty_voice = rng.randrange(nvoices) if nvoices > 1 and rng.random() < 0.1 else None
             for v in range(nvoices):
+                if v == empty_voice:
+                    per_voice[v].append(_emit_bar(ops, key, meter, []))  # an empty bar: this voice is silent
+                    continue
                 whole_rest = rng.random() < 0.06
                 entries = _gen_entries(rng, fills[v], chans[v], 1.0 if whole_rest else cfg["rest_p"], rng.random() < 0.15, cfg["bpm_p"] if v == tempo_voice else 0.0)
                 per_voice[v].append(_emit_bar(ops, key, meter, entries))
@@ -1107,11 +1124,17 @@ def generate(rng, prop, tier):
         per_voice, chans = parallel_material(nv, nb)
         tidx = []
         for v in range(nv):
-            ops.append({"op": "track", "instr": _gen_instr(rng), "name": None})
+            ins = _gen_instr(rng)
+            late = ins[0] != "none" and rng.random() < 0.3
+            ops.append({"op": "track", "instr": ins, "name": None, "late": late})
             t = sum(1 for o in ops if o["op"] == "track") - 1
             tidx.append(t)
             for b in per_voice[v]:
                 ops.append({"op": "tadd", "track": t, "bar": b})
+                if rng.random() < 0.04:
+                    ops.append({"op": "setnote", "bar": b, "entry": rng.randrange(8), "pos": rng.randrange(5), "note": world.gen_note(rng, chans[v])})
+            if late:
+                ops.append({"op": "setinstr", "track": t})
         churn_between()
         if comp:
             ops.append({"op": "comp"})
@@ -1145,6 +1168,7 @@ def generate(rng, prop, tier):
             rng.choice([lambda: solo_ops(2), plan_bar, plan_track, plan_bars, lambda: plan_tracks(rng.random() < 0.5)])()
     if rng.random() < 0.3:
         solo_ops(rng.randrange(1, 3))
+    ops = world.sprinkle_theory(rng, ops)
     return {"prop": prop, "cfg": cfg, "ops": ops}
 
 
@@ -1231,6 +1255,10 @@ def describe(prop):
             "midi_instrument_unknown_name",
             "composition_default_channels",
             "default_arguments_used",
+            "empty_bar_in_parallel_playback",
+            "instrument_attached_late",
+            "same_bar_object_added_again",
+            "container_not_ascending_after_item_assignment",
             "attach_duplicate",
             "detach_stranger",
             "rest_played",
